@@ -153,7 +153,7 @@ pub fn run_pair(case : &Case, mut stats : Option<&mut Stats>) -> Vec<Violation>
     }
     if let Some(s) = stats.as_deref_mut()
     {
-        s.inc("runs");
+        s.end_run();
         s.inc(&format!("c18.histories.{}", clock));
         if shortcut_after_restore
         {
